@@ -381,6 +381,9 @@ func (b *baseExecutor) buildLockKey(records *types.RecordImage, meta types.Table
 					lockKeys.WriteString(fmt.Sprintf("%v", column.Value))
 					pkSplitIndex++
 					filedSequence++
+					// an image may list a key column twice (a statement that names it in
+					// SET): one part per key column
+					break
 				}
 			}
 		}
